@@ -217,7 +217,10 @@ def shard(binpath, seed, sh, n):
             expect, reason = "accept", ""
         meta = {"signers": S, "map": M, "mapdesc": mapdesc, "action": desc, "expect": expect, "reason": reason,
                 "content_edit": content_edit, "keytypes": sorted({k.split("-")[0].rstrip("0123456789") for k in S})}
-        case = scen.verify_case(wire, pairs, files, orig_layout=lw if content_edit else None, meta=meta)
+        # the caller may ask for the summary under a name: the owner-signature gate is the same
+        sn = rng.choice([None, None, "final", "", "rel-1"])
+        meta["summary_name"] = sn is not None
+        case = scen.verify_case(wire, pairs, files, orig_layout=lw if content_edit else None, meta=meta, step_name=sn)
         if action == "none" and expect == "accept" and rng.random() < 0.45:
             meta["mem_edit"] = case["mem_edit"] = rng.choice(["rekey_swap", "rekey_swap", "rekey_alias", "readme", "drop_step", "expires"])
         if action != "none" and rng.random() < 0.5:
@@ -237,6 +240,8 @@ def shard(binpath, seed, sh, n):
         cls += ["ownerkey:" + t for t in m["keytypes"]]
         if m.get("sempres"):
             cls.append("semantics_preserving_edit")
+        if m.get("summary_name"):
+            cls.append("summary_name_given:" + ("accept" if ok else "reject"))
         if m.get("mem_edit"):
             cls.append(f"in_memory_edit:{m['mem_edit']}:" + ("effective" if m.get("mem_edit_effective") else "not_applicable"))
         if m.get("after_genuine"):
@@ -267,5 +272,5 @@ def main(ctx):
         required=["positive_control_accepted", "positive:ed", "positive:ec", "positive:rsa", "map:empty", "map:two_ids",
                   "map:superset", "map:disjoint", "map:subset", "map:plus_unknown_scheme_key", "action:content:set", "action:sig:flip", "action:sig:relabel",
                   "action:sig:other_content", "action:sig:drop", "action:sig:resign_by_other", "expect:reject", "observed:reject", "history:genuine_layout_verified_first:True",
-                  "in_memory_edit:rekey_swap:effective", "in_memory_edit:readme:effective"],
+                  "summary_name_given:accept", "summary_name_given:reject", "in_memory_edit:rekey_swap:effective", "in_memory_edit:readme:effective"],
         min_evals=500)
